@@ -428,4 +428,131 @@ theorem finish_st (k : MC α) (l1 : Loco α) :
     · exact Or.inl rfl
   · exact Or.inl rfl
 
+/-! ### consist -/
+
+/-- the mass a unit reports (0 when it reports none / an error; only used under the hypothesis
+    that it reports a value) -/
+def massOf (k : MC α) (l : Loco α) : α :=
+  match locoMass k l with
+  | .ok (some m) => m
+  | _ => 0
+
+theorem massOf_eq (k : MC α) (l : Loco α) (m : α) (h : locoMass k l = .ok (some m)) :
+    massOf k l = m := by
+  unfold massOf; rw [h]
+
+theorem consistSumFold_all_some (k : MC α) (ls : List (Loco α)) (acc : α)
+    (h : ∀ l ∈ ls, ∃ m, locoMass k l = .ok (some m)) :
+    consistSumFold k acc ls = .ok (acc + (ls.map (massOf k)).sum) := by
+  induction ls generalizing acc with
+  | nil => simp [consistSumFold]
+  | cons l ls ih =>
+    obtain ⟨m, hm⟩ := h l (by simp)
+    unfold consistSumFold
+    simp only [bind, Res.bind, hm]
+    rw [ih (m + acc) (fun l' hl' => h l' (by simp [hl'])), List.map_cons, List.sum_cons,
+      massOf_eq k l m hm]
+    congr 1; ring
+
+/-- the homogeneity fold: Ok only if every unit answers Ok with the same known/unknown status -/
+theorem consistNoneFold_ok (k : MC α) (ls : List (Loco α)) (acc r : Bool)
+    (h : consistNoneFold k acc ls = .ok r) :
+    r = acc ∧ ∀ l ∈ ls, ∃ m, locoMass k l = .ok m ∧ m.isNone = acc := by
+  induction ls with
+  | nil => simp [consistNoneFold] at h; exact ⟨h.symm, by simp⟩
+  | cons l ls ih =>
+    unfold consistNoneFold at h
+    cases hm : locoMass k l with
+    | err e => simp [bind, Res.bind, hm] at h
+    | panic e => simp [bind, Res.bind, hm] at h
+    | ok m =>
+      simp only [bind, Res.bind, hm] at h
+      split_ifs at h with hc
+      obtain ⟨h1, h2⟩ := ih h
+      refine ⟨h1, ?_⟩
+      intro l' hl'
+      rcases List.mem_cons.mp hl' with e | e
+      · subst e; exact ⟨m, hm, (by simpa using hc : acc = m.isNone).symm⟩
+      · exact h2 l' e
+
+theorem consistNoneFold_all (k : MC α) (ls : List (Loco α)) (acc : Bool)
+    (h : ∀ l ∈ ls, ∃ m, locoMass k l = .ok m ∧ m.isNone = acc) :
+    consistNoneFold k acc ls = .ok acc := by
+  induction ls with
+  | nil => rfl
+  | cons l ls ih =>
+    obtain ⟨m, hm, hn⟩ := h l (by simp)
+    unfold consistNoneFold
+    simp only [bind, Res.bind, hm, hn, beq_self_eq_true, if_true]
+    exact ih (fun l' hl' => h l' (by simp [hl']))
+
+theorem consistForceFold_ok (k : MC α) (ls : List (Loco α)) (acc : α)
+    (h : ∀ l ∈ ls, locoCheckForceMax k l = true) :
+    consistForceFold k acc ls = .ok (acc + (ls.map (fun l => l.forceMax)).sum) := by
+  induction ls generalizing acc with
+  | nil => simp [consistForceFold]
+  | cons l ls ih =>
+    unfold consistForceFold locoForceMax
+    simp only [h l (by simp), if_true, bind, Res.bind]
+    rw [ih (l.forceMax + acc) (fun l' hl' => h l' (by simp [hl'])), List.map_cons, List.sum_cons]
+    congr 1; ring
+
+theorem consistForceFold_units (k : MC α) (ls : List (Loco α)) (acc r : α)
+    (h : consistForceFold k acc ls = .ok r) : ∀ l ∈ ls, locoCheckForceMax k l = true := by
+  induction ls generalizing acc with
+  | nil => simp
+  | cons l ls ih =>
+    unfold consistForceFold locoForceMax at h
+    by_cases hc : locoCheckForceMax k l = true
+    · simp only [hc, if_true, bind, Res.bind] at h
+      intro l' hl'
+      rcases List.mem_cons.mp hl' with e | e
+      · subst e; exact hc
+      · exact ih _ h l' e
+    · simp [hc, bind, Res.bind] at h
+
+/-! ### train -/
+
+/-- the static mass one vehicle type contributes: `(base + freight) · n` -/
+def carMass (cast : Nat → α) (n : List (Nat × Nat)) (rv : RV α) : α :=
+  match nCars n rv.key with
+  | some c => (rv.base + rv.freight) * cast c
+  | none => 0
+
+theorem carsMassFold_ok (cast : Nat → α) (n : List (Nat × Nat)) (rvs : List (RV α)) (acc : α)
+    (h : ∀ rv ∈ rvs, ∃ c, nCars n rv.key = some c) :
+    carsMassFold cast n acc rvs = .ok (acc + (rvs.map (carMass cast n)).sum) := by
+  induction rvs generalizing acc with
+  | nil => simp [carsMassFold]
+  | cons rv rvs ih =>
+    obtain ⟨c, hc⟩ := h rv (by simp)
+    unfold carsMassFold
+    simp only [hc]
+    rw [ih _ (fun rv' h' => h rv' (by simp [h'])), List.map_cons, List.sum_cons]
+    unfold carMass; simp only [hc]
+    congr 1; ring
+
+theorem carsMassFold_missing (cast : Nat → α) (n : List (Nat × Nat)) (rvs : List (RV α)) (acc r : α)
+    (h : carsMassFold cast n acc rvs = .ok r) : ∀ rv ∈ rvs, ∃ c, nCars n rv.key = some c := by
+  induction rvs generalizing acc with
+  | nil => simp
+  | cons rv rvs ih =>
+    unfold carsMassFold at h
+    cases hc : nCars n rv.key with
+    | none => simp [hc] at h
+    | some c =>
+      simp only [hc] at h
+      intro rv' h'
+      rcases List.mem_cons.mp h' with e | e
+      · subst e; exact ⟨c, hc⟩
+      · exact ih _ h rv' e
+
+theorem checkRvKeys_lookup (rvs : List (RV α)) (n : List (Nat × Nat)) (h : checkRvKeys rvs n = true) :
+    ∀ rv ∈ rvs, ∃ c, nCars n rv.key = some c := by
+  unfold checkRvKeys at h
+  simp only [Bool.and_eq_true, List.all_eq_true] at h
+  intro rv hrv
+  have := h.1 rv hrv
+  exact Option.isSome_iff_exists.mp this
+
 end Altrios.Proofs.MassL
